@@ -5,6 +5,7 @@ mod dump;
 mod sig;
 mod s_enc;
 mod s_cnt;
+mod s_rice;
 
 use std::io::{BufRead, Write};
 
@@ -18,6 +19,7 @@ fn run_line(line: &str) -> String {
         "SINK" => s_sink::run(&idc, &restc),
         "ENC" => s_enc::run(&idc, &restc),
         "CNT" => s_cnt::run(&idc, &restc),
+        "RICE" => s_rice::run(&idc, &restc),
         _ => format!("{} unknown-stream", idc),
     });
     match r { Ok(s) => s, Err(_) => format!("{} panic", id) }
@@ -35,6 +37,7 @@ fn main() {
                 "SINK" => s_sink::gen(seed, n, &mut out),
                 "ENC" => s_enc::gen(seed, n, &mut out),
                 "CNT" => s_cnt::gen(seed, n, &mut out),
+                "RICE" => s_rice::gen(seed, n, &mut out),
                 _ => panic!("unknown stream"),
             }
             print!("{}", out);
